@@ -459,5 +459,47 @@ func TestC02(t *testing.T) {
 		}
 		s.St.Exhaust("multi-chunk files (64K, 64K+1, 128K, 128K+5): flips and truncations at every offset within 20 bytes of each chunk boundary, the nonce and the end; extensions x read modes", int64(n))
 	}, check)
+	// more than 256 chunks: the chunk counter has to carry into its second byte
+	pbt.Each(s, "edits-big", func(yield func(c02Case)) {
+		if s.Shard != 0 {
+			return
+		}
+		big := 257*chunk + 1000 // 258 chunks
+		ownRange := func(a, b int) []progStep {
+			var p []progStep
+			for i := a; i < b; i++ {
+				p = append(p, progStep{Src: "own", Idx: i})
+			}
+			return p
+		}
+		swapped := ownRange(0, 258)
+		swapped[0], swapped[256] = swapped[256], swapped[0]
+		swapped2 := ownRange(0, 258)
+		swapped2[1], swapped2[257] = swapped2[257], swapped2[1]
+		var full257 []chunkSpec
+		for i := 0; i < 257; i++ {
+			full257 = append(full257, chunkSpec{uint64(i), false, i * chunk, chunk})
+		}
+		full257 = append(full257, chunkSpec{257, true, 257 * chunk, 0})
+		var canon257 []chunkSpec
+		for i := 0; i < 257; i++ {
+			canon257 = append(canon257, chunkSpec{uint64(i), i == 256, i * chunk, chunk})
+		}
+		cases := []c02Case{
+			{PlainLen: big, Edit: c02Edit{Kind: "none"}},
+			{PlainLen: big, Edit: c02Edit{Kind: "prog", Prog: ownRange(256, 258)}},
+			{PlainLen: big, Edit: c02Edit{Kind: "prog", Prog: append(ownRange(0, 256), ownRange(0, 258)...)}},
+			{PlainLen: big, Edit: c02Edit{Kind: "prog", Prog: swapped}},
+			{PlainLen: big, Edit: c02Edit{Kind: "prog", Prog: swapped2}},
+			{PlainLen: 257 * chunk, Edit: c02Edit{Kind: "chunking", Chunks: full257}},
+			{PlainLen: 257 * chunk, Edit: c02Edit{Kind: "chunking", Chunks: canon257}},
+			{PlainLen: 256 * chunk, Edit: c02Edit{Kind: "extend", Len: 1}},
+		}
+		for _, c := range cases {
+			c.PlainSeed, c.Plan, c.Delivery = 6, []int{-1}, whole
+			yield(c)
+		}
+		s.St.Exhaust("258-chunk files (16 MiB): unedited, first 256 chunks dropped, a 256-chunk run duplicated, chunks i and i+256 swapped, 257 full chunks + empty final chunk, canonical 257-chunk chunking, 256 chunks + one trailing byte", int64(len(cases)))
+	}, check)
 	pbt.Rapid(s, "edits", s.N(4000, 25000), c02Gen, check)
 }
